@@ -11,17 +11,18 @@ import (
 // decision that was handed back to the library, so that attempts and waits
 // are judged as values, never by timing.
 type monEvent struct {
-	Kind         string        `json:"kind"` // cleanly | uncleanly | reopenFailed | reopenSucceeded
-	Cause        error         `json:"-"`
-	CauseText    string        `json:"cause,omitempty"`
-	PrevAttempts uint          `json:"prevAttempts,omitempty"`
-	PrevWait     time.Duration `json:"prevWait,omitempty"`
-	Reopen       bool          `json:"reopen"`
-	Wait         time.Duration `json:"wait"`
-	Ch           <-chan error  `json:"-"`                           // reopenSucceeded: Closed() of the new session, taken inside the callback
-	LateSampled  bool          `json:"lateClosedSampled,omitempty"` // reopenFailed: Closed() was fetched right after the failed attempt ...
-	LateReady    bool          `json:"lateClosedReady,omitempty"`   // ... and a receive on it did not block (cause or closed)
-	OpenCalls    int           `json:"openCalls"`                   // Open calls the stream had seen when the callback ran
+	Kind           string        `json:"kind"` // cleanly | uncleanly | reopenFailed | reopenSucceeded
+	Cause          error         `json:"-"`
+	CauseText      string        `json:"cause,omitempty"`
+	PrevAttempts   uint          `json:"prevAttempts,omitempty"`
+	PrevWait       time.Duration `json:"prevWait,omitempty"`
+	Reopen         bool          `json:"reopen"`
+	Wait           time.Duration `json:"wait"`
+	Ch             <-chan error  `json:"-"`                           // reopenSucceeded: Closed() of the new session, taken inside the callback
+	LateSampled    bool          `json:"lateClosedSampled,omitempty"` // reopenFailed: Closed() was fetched right after the failed attempt ...
+	LateReady      bool          `json:"lateClosedReady,omitempty"`   // ... and a receive on it did not block (cause or closed)
+	OpenAtCallback bool          `json:"openAtCallback,omitempty"`    // reopenFailed: IsOpen() was true inside the callback
+	OpenCalls      int           `json:"openCalls"`                   // Open calls the stream had seen when the callback ran
 }
 
 // recMonitor wraps frugal.BaseFTransportMonitor and records every callback.
@@ -101,6 +102,7 @@ func (m *recMonitor) OnReopenFailed(prevAttempts uint, prevWait time.Duration) (
 	// the runner (this goroutine) is the only one that reopens it - must find
 	// the channel ready: the cause still buffered, or the channel closed.
 	if m.tr != nil {
+		e.OpenAtCallback = m.tr.IsOpen()
 		e.LateSampled = true
 		if ch := m.tr.Closed(); ch != nil {
 			e.LateReady = chanReady(ch)
